@@ -8,7 +8,10 @@ import (
 	"fmt"
 	"runtime"
 	"sort"
+	"strconv"
 	"strings"
+
+	"github.com/ipld/go-ipld-prime/datamodel"
 
 	"verif/sim/store"
 	"verif/sim/tape"
@@ -236,4 +239,15 @@ func min(a, b int) int {
 		return a
 	}
 	return b
+}
+
+// segmentFor is the path segment a selector or path parser produces for a
+// name: an all-digit name in canonical form becomes an INDEX segment (that is
+// what datamodel.ParsePathSegment-style callers and list-aware code build), any
+// other name a string segment. Both must find the same entry.
+func segmentFor(name string) datamodel.PathSegment {
+	if i, err := strconv.ParseInt(name, 10, 64); err == nil && i >= 0 && strconv.FormatInt(i, 10) == name {
+		return datamodel.PathSegmentOfInt(i)
+	}
+	return datamodel.PathSegmentOfString(name)
 }
